@@ -50,6 +50,14 @@ def run(ctx, R, tier):
                 reach = tb.reachable([none_t], stop=[L['header']]) - {L['header']}
                 zero = [s for x in reach for s in tb.blocks[x]['stmts'] if s['k'] == 'assign' and s['lhs']['p']
                         and describe_rv(tb, s['rv']) == 'const frame::Frame::ZERO']
+                if not zero:
+                    # `*frame = match .. { .., None => Frame::ZERO }`: the None arm gives a temporary the value, the store
+                    # into the frame (shared with the other arm) moves it there
+                    from ..facts import op_local
+                    tmp = [s['lhs']['l'] for x in reach for s in tb.blocks[x]['stmts'] if s['k'] == 'assign' and not s['lhs']['p']
+                           and describe_rv(tb, s['rv']) == 'const frame::Frame::ZERO']
+                    zero = [s for x in reach for s in tb.blocks[x]['stmts'] if s['k'] == 'assign' and s['lhs']['p'] and s['lhs']['p'][0][0] == 'deref'
+                            and s['rv']['k'] == 'use' and op_local(s['rv']['op']) in tmp]
                 calls = [callee_path(tb.blocks[x]['term']) for x in reach if tb.blocks[x]['term']['k'] == 'call']
                 ok = len(zero) == 1 and sp[0][0] not in reach and not calls
                 why = 'without a listener the frame is not set to Frame::ZERO (stores: %d, calls: %s)' % (len(zero), calls)
@@ -259,10 +267,41 @@ def run(ctx, R, tier):
             # (inherited) spatial_track_info
             for bb, t in ld.calls():
                 if (callee_path(t) or '') == 'glam::Vec3::distance':
-                    ds = [describe(ld, a, depth=8, at=bb) for a in t['args']]
-                    okz = any('listener_info(' in x for x in ds) and any('spatial_track_info' in x for x in ds)
+                    ds = [describe(ld, a, depth=8, at=bb) + ' ' + ' '.join(sources(ld, a)) for a in t['args']]
+                    okz = any('listener_info' in x for x in ds) and any('spatial_track_info' in x for x in ds)
         R.check(okz, 'B.C15.inherit', 'listener_distance', 'listener_distance does not combine the (inherited) spatial info with listener_info()',
                 detail='spatial_track_info.zip(self.listener_info())')
+
+
+def sources(body, op, limit=40):
+    """What a value is computed from, transitively: the callees and the `self` places its backward slice passes through
+    (through copies, projections, the payloads `?` unwraps, conversions)."""
+    from ..facts import op_local
+    out = set()
+    work = [op_local(op)] if isinstance(op, dict) and 'pl' in op else []
+    if isinstance(op, dict) and 'pl' in op and op['pl']['p']:
+        out.add(pretty_place(body, op['pl']))
+    seen = set()
+    while work and len(seen) < limit:
+        l = work.pop()
+        if l is None or l in seen:
+            continue
+        seen.add(l)
+        for d in body.defs().get(l, []):
+            if d[0] == 'call':
+                out.add(callee_path(d[2]) or '?')
+                ops = d[2]['args']
+            else:
+                rv = d[3]['rv']
+                ops = [rv[k] for k in ('op', 'a', 'b') if isinstance(rv.get(k), dict)] + list(rv.get('ops') or [])
+                if rv.get('pl'):
+                    ops.append({'k': 'copy', 'pl': rv['pl']})
+            for o in ops:
+                if isinstance(o, dict) and 'pl' in o:
+                    if o['pl']['p']:
+                        out.add(pretty_place(body, o['pl']))
+                    work.append(o['pl']['l'])
+    return sorted(out)
 
 
 def follows_distance(F, R):
